@@ -29,6 +29,11 @@ def run_shard(spec):
     quick = spec["tier"] == "quick"
     for _ in range(4 if quick else 60):
         st.run_world(rng, cstream.C01_CLASSES, nblocks=rng.choice([8, 14, 22, 30]), ncand=45 if quick else 60)
+    for _ in range(1 if quick else 10):       # every candidate the first block above the checkpoint horizon
+        st.run_world(rng, cstream.C01_CLASSES, nblocks=rng.choice([8, 14]), ncand=30 if quick else 50, horizon_at_head=True)
+    # well-filled blocks (12-21 ordinary transactions) in which ONE transaction breaks a rule
+    for _ in range(1 if quick else 12):
+        st.run_world(rng, cstream.C01_CROWDED, nblocks=rng.choice([30, 40]), ncand=16 if quick else 28)
     if spec["shard"] % 4 == 3:
         node_lane(st, rng, 3 if quick else 40)
     return st.result()
@@ -98,12 +103,14 @@ def node_lane(st, rng, nhist):
 
 def finalize(m, tier):
     c = m["counters"]
-    floors = [("attempts", c.get("attempts", 0), 500), ("accepted_with_ordinary_tx", c.get("accepted_with_ordinary_tx", 0), 50),
+    floors = [("attempts", c.get("attempts", 0), 500),
+              ("candidates_first_above_horizon", c.get("candidates_first_above_horizon", 0), 200), ("accepted_with_ordinary_tx", c.get("accepted_with_ordinary_tx", 0), 50),
               ("followup_valid_accepted", c.get("followup_valid_accepted", 0), 50),
               ("parents_losing_tip", c.get("parents_losing_tip", 0), 50), ("parents_old", c.get("parents_old", 0), 50),
               ("node_lane_refused", c.get("node_lane_refused", 0), 60), ("node_lane_restarts", c.get("node_lane_restarts", 0), 6)]
     for cls in cstream.C01_CLASSES:
         floors.append(("class " + cls, c.get("by_class", {}).get(cls, 0), 8))
+    floors.append(("well-filled blocks (12+ transactions)", sum(v for k, v in c.get("by_class", {}).items() if k.startswith("crowded:")), 40))
     if c.get("ref_valid_but_rejected", 0):
         m["inconclusive"].append("%d blocks the reference finds valid were rejected by add_block (oracle/real "
                                  "disagreement outside this property)" % c["ref_valid_but_rejected"])
